@@ -103,7 +103,8 @@ def run_case(args):
                     witnesses.append(dict(label=lab, inputs=vals))
         out.update(ok=True, stats=eng.stats, claims=claims, sats=sats, unknowns=unknowns,
                    bad_paths=bad_paths, reached=sorted(reached), statuses=statuses,
-                   validate=val, witnesses=witnesses, known_used=sorted(c.known_used), wall_s=time.time() - t0)
+                   validate=val, witnesses=witnesses, known_used=sorted(c.known_used), wall_s=time.time() - t0,
+                   input_bounds={k: (list(v) if isinstance(v, tuple) else v) for k, v in eng.input_bounds.items()})
     except BaseException as ex:      # noqa: BLE001 -- report, never hide
         out["error"] = "".join(traceback.format_exception(type(ex), ex, ex.__traceback__))[-4000:]
         out["wall_s"] = time.time() - t0
@@ -285,6 +286,40 @@ def main(argv=None):
                 continue
             validated += 1
 
+    # -- concrete probes: random assignments of the declared inputs (seeded by VERIF_SEED), run on the real library only.
+    #    Not a deciding step -- "held" is the solver's verdict -- but a claim that fails here is a reproduced violation;
+    #    this is what catches sparse float defects that the error model can neither prove nor pin to a failing input.
+    nprobe = getattr(prop, "PROBES", {}).get(a.tier, 60 if a.tier == "quick" else 400)
+    pjobs, pmeta = [], []
+    for r in results:
+        if r.get("ok") and r.get("input_bounds") and cases[r["idx"]].get("params_list") is None:
+            b = r["input_bounds"]
+            for k in range(nprobe):
+                inp = {}
+                for name, bd in b.items():
+                    if bd == "bool":
+                        inp[name] = rnd.random() < 0.5
+                    else:
+                        lo, hi = bd
+                        inp[name] = rnd.choice((lo, hi, rnd.randint(lo, hi), rnd.randint(lo, hi), rnd.randint(lo, hi)))
+                pjobs.append(dict(idx=r["idx"], inputs=inp))
+                pmeta.append(r["name"])
+    probes_run = 0
+    if pjobs and not problems:
+        try:
+            pres = run_real(pid, a.tier, pjobs)
+        except Exception as ex:      # noqa: BLE001
+            problems.append(f"probe run failed: {ex}")
+            pres = []
+        for cname, job, rr in zip(pmeta, pjobs, pres):
+            if rr["status"] != "ok":
+                continue                      # outside the harness's assumptions
+            probes_run += 1
+            pf = [lab for lab, ok in rr.get("claims", []) if not ok]
+            if pf:
+                val_violations.append(dict(property=pid, tier=a.tier, case=cname, case_idx=job["idx"], inputs=job["inputs"],
+                                           solver_claim="concrete probe", failed_claims=pf, observed=rr.get("observed")))
+
     # -- boundary witnesses (models of the reachability conditions) and the compiled backend:
     #    every claim must also hold concretely on these solver-chosen inputs, with both helper/parser backends
     violations = list(val_violations)
@@ -428,6 +463,7 @@ def main(argv=None):
             reachability_witnesses=sorted(reached), witnesses_required=getattr(prop, "REACH", []),
             model_impl_mismatches=len(mismatches),
             boundary_witnesses_replayed=len(wjobs),
+            concrete_probes_on_real_library=probes_run,
             rust_crosscheck=dict(enabled=bool(getattr(prop, "RUST_CROSSCHECK", False)), concrete_runs_on_compiled_backend=rust_checked,
                                  note="solver-chosen inputs (one per explored path plus the reachability witnesses) re-run on the "
                                       "compiled backend; concrete cross-run, not the deciding step"),
